@@ -380,6 +380,60 @@ def exchange_violation(req, resp, out):
     return None
 
 
+WHOLE_HEADER = """From Coq Require Import List ZArith Bool.
+Import ListNotations.
+Require Import V.Lib.C29_Http V.C29.Model V.C30.WholeMessage.
+Open Scope Z_scope.
+Fixpoint lz_eqb (a b : list Z) := match a, b with [], [] => true | x :: a', y :: b' => Z.eqb x y && lz_eqb a' b' | _, _ => false end.
+Definition pr_eqb (a b : list Z * list Z) := lz_eqb (fst a) (fst b) && lz_eqb (snd a) (snd b).
+Fixpoint prs_eqb (a b : list (list Z * list Z)) := match a, b with [], [] => true | x :: a', y :: b' => pr_eqb x y && prs_eqb a' b' | _, _ => false end.
+"""
+
+
+def c_hdrs(h):
+    return clist(["(%s, %s)" % (cbytes(k), cbytes(v)) for k, v in h], "(list Z * list Z)")
+
+
+def whole_message_cases(req, resp, out):
+    """model terms for the head bytes Requester.build / Responder.build produce and for the HTTP_*
+    part of the WSGI environ, with what the implementation really produced"""
+    heads, envs = [], []
+    rw = out["request_wire"]
+    head, sep, body = rw.partition(b"\r\n\r\n")
+    if sep:
+        line = head.split(b"\r\n")[0]
+        method, url, _ = line.split(b" ")
+        user = [(k.lower().encode("latin-1"), v.encode("latin-1")) for k, v in req["headers"]]
+        if req["method"] != u"GET":
+            if req["data"] is not None:
+                user.append((b"content-type", b"application/json; charset=utf-8"))
+            elif req["fargs"] is not None:
+                user.append((b"content-type", b"application/x-www-form-urlencoded; charset=utf-8"))
+        cls = clist([cz(int(d)) for d in str(len(body))], "Z")
+        L = "(requester_headers %s %s %s %s)" % (cbytes(b"127.0.0.1:%d" % harness.PORT), c_hdrs(user), cbytes(body), cls)
+        heads.append(("(requester_head %s %s %s)" % (cbytes(method), cbytes(url), L), cbytes(head + sep),
+                      ("Requester.build head", req)))
+        if out["environ"] is not None:
+            got = [(k.encode("latin-1"), v.encode("latin-1")) for k, v in out["environ"].items() if k.startswith("HTTP_")]
+            envs.append(("(environ_http %s)" % L, c_hdrs(got), ("buildEnviron HTTP_*", req)))
+    if resp["kind"] in ("len", "chunked", "stream", "empty") and out["response_wire"]:
+        whead, sep, _ = out["response_wire"].partition(b"\r\n\r\n")
+        if sep:
+            date = b""
+            for l in whead.split(b"\r\n")[1:]:
+                if l.lower().startswith(b"date:"):
+                    date = l.split(b":", 1)[1].strip()
+            h = [(k.lower().encode("latin-1"), v.encode("latin-1")) for k, v in resp["headers"]]
+            if resp["kind"] == "len":
+                h.append((b"content-length", str(sum(len(x) for x in resp["pieces"])).encode()))
+            code, _, reason = resp["status"].partition(" ")
+            ds = clist([cz(int(d)) for d in code], "Z")
+            rs = clist([cbytes(w.encode("latin-1")) for w in reason.split(" ")], "(list Z)")
+            heads.append(("(responder_head %s %s (responder_headers true %s %s))" % (ds, rs, cbytes(date), c_hdrs(h)),
+                          cbytes(whead + sep), ("Responder.build head", resp)))
+    return heads, envs
+
+
 def resp_events(resp):
     """the WSGI application's behaviour as the model's event list"""
     ev = []
@@ -462,7 +516,7 @@ def run(ctx):
         "header values are latin-1 text without CR/LF and without leading/trailing blanks; names are tokens",
     ]
     harness.fakenet.quiet()
-    ctx.coq_build("C30/Props.v")
+    ctx.coq_build(["C30/Props.v", "C30/PropsWhole.v"])
 
     bz, pz, sz = function_cases(ctx)
     for group, eqb, nm in ((bz, "lz_eqb", "fn_bytes"), (pz, "prs_eqb", "fn_pairs"), (sz, "pr_eqb", "fn_chunk")):
@@ -475,10 +529,15 @@ def run(ctx):
 
     failing = []
     evcases, evmeta = [], []
+    whead_cases, wenv_cases = [], []
     for _ in range(ctx.n(450, 5000)):
         req = gen_request(ctx.rng)
         resp = gen_response(ctx.rng)
         out = harness.run_exchange(req, resp)
+        if len(whead_cases) < ctx.n(60, 600) and not out["error"]:
+            hs, es = whole_message_cases(req, resp, out)
+            whead_cases += hs
+            wenv_cases += es
         if out["response_wire"] and not out["error"]:
             evcases.append(("(cv %s)" % c_events(resp_events(resp)), clist([cz(x) for x in wire_view(out["response_wire"])], "Z")))
             evmeta.append((req, resp, out))
@@ -489,6 +548,13 @@ def run(ctx):
         why = exchange_violation(req, resp, out)
         if why:
             failing.append((req, resp, out, why))
+    for group, eqb, nm in ((whead_cases, "lz_eqb", "whole_heads"), (wenv_cases, "prs_eqb", "whole_environ")):
+        for c in group:
+            ctx.case({"whole": repr(c[2])[:200]}, nontrivial=True, kind=c[2][0])
+        badw = ctx.coq_cases(WHOLE_HEADER, eqb, [(c[0], c[1]) for c in group], shard=40, name=nm)
+        for i in badw[:3]:
+            ctx.tie_broken("correspondence", "C30 WholeMessage model vs %s" % group[i][2][0], repr(group[i][2])[:800])
+        ctx.extra["mismatches_" + nm] = len(badw)
     badev = ctx.coq_cases(HEADER, "lz_eqb", evcases, shard=150, name="resp_events")
     for i in badev[:4]:
         ctx.tie_broken("correspondence", "C30 model serve_app/client_view vs Responder.service",
